@@ -1323,6 +1323,26 @@ class Printer:
             raise ExtractionBreak('member of something else than *this')
         if k == 'UnaryOperator' and n.get('opcode') in ('!', '-', '~') and I:
             return '(%s%s)' % (n['opcode'], self.sz_e(I[0]))
+        if k == 'CXXOperatorCallExpr' and len(I) == 3 and self.unit.get('sz_witness'):
+            # S.find(e) == S.end()  /  != : membership test on a witness set, rendered through the set's `count` entry
+            f_ = self.callee_decl(I[0])
+            opn_ = f_.get('name') or f_.get('referencedDecl', {}).get('name')
+            if opn_ in ('operator==', 'operator!='):
+                def as_call(x):
+                    while x.get('kind') in ('ImplicitCastExpr', 'ParenExpr', 'MaterializeTemporaryExpr', 'CXXBindTemporaryExpr', 'CXXConstructExpr') and x.get('inner'):
+                        x = x['inner'][0]
+                    return x if x.get('kind') == 'CXXMemberCallExpr' and x.get('inner') and x['inner'][0].get('kind') == 'MemberExpr' else None
+                a_, b_ = as_call(I[1]), as_call(I[2])
+                if a_ and b_:
+                    if a_['inner'][0].get('name') == 'end':
+                        a_, b_ = b_, a_
+                    if a_['inner'][0].get('name') == 'find' and b_['inner'][0].get('name') == 'end':
+                        wk = self.sz_wkey(a_['inner'][0]['inner'][0], 'count')
+                        if wk:
+                            self.fire('sz:witness-find-vs-end')
+                            c_ = self.sz_wfill(self.unit['sz_witness'][wk], a_['inner'][1:])
+                            return '((%s) %s 0)' % (c_, '==' if opn_ == 'operator==' else '!=')
+            raise ExtractionBreak('operator call in scalar expression')
         if k == 'BinaryOperator' and n.get('opcode') in ('+', '-', '*', '/', '%', '<', '>', '<=', '>=', '==', '!=', '&&', '||', '&', '|', '>>', '<<'):
             if n['opcode'] in ('&&', '||'):
                 parts = []
@@ -1551,6 +1571,12 @@ class Printer:
                         return t + '%s = (size_t)%s;\n' % (szv, self.sz_e(args[0]))
                     except ExtractionBreak:
                         self.fire('sz:resize-to-unknown')
+                        return t + self.sz_havoc(szv, 'size_t') + '\n'
+                if m == 'assign' and len(args) == 2:
+                    try:
+                        self.fire('sz:assign-n-copies')
+                        return t + '%s = (size_t)%s;\n' % (szv, self.sz_e(args[0]))
+                    except ExtractionBreak:
                         return t + self.sz_havoc(szv, 'size_t') + '\n'
                 if m == 'clear':
                     self.fire('sz:clear')
